@@ -100,6 +100,14 @@ PBreak(e) == /\ bgiven' = bgiven \cup {e} /\ viol' = "ok"
 PRelease  == /\ released' = TRUE /\ viol' = "ok"
              /\ UNCHANGED <<cap, ws, rs, cgiven, bgiven, rblocked>>
 
+(* Err() returned e; Done() is closed (d = TRUE) or not.  Pure queries. *)
+ErrVerdict(e) == IF broken THEN (IF e \in bgiven THEN "ok" ELSE "ErrReport")
+                 ELSE IF closed THEN (IF e \in cgiven THEN "ok" ELSE "ErrReport")
+                 ELSE IF e = None THEN "ok" ELSE "ErrReport"
+PQuery(e, d) == /\ viol' = IF ErrVerdict(e) # "ok" THEN ErrVerdict(e)
+                              ELSE IF d = (closed \/ broken) THEN "ok" ELSE "DoneReport"
+                /\ UNCHANGED <<cap, ws, rs, cgiven, bgiven, released, rblocked>>
+
 ---------------------------------------------------------------------------
 (* The obligations as state predicates (checked by TLC on Layer M, evaluated in   *)
 (* every state of a recorded trace).                                              *)
